@@ -4,6 +4,7 @@ import (
 	"fmt"
 	"reflect"
 	"sort"
+	"strings"
 	"unsafe"
 
 	"filippo.io/edwards25519"
@@ -212,11 +213,26 @@ func CheckAlphabetClosed() error {
 		}
 	}
 	sort.Strings(missing)
-	if len(missing) > 0 {
-		return fmt.Errorf("alphabet incomplete: %v", missing)
+	var gone []string
+	Unexercised = nil
+	for _, m := range missing {
+		if strings.HasPrefix(m, "(gone)") {
+			gone = append(gone, m)
+		} else {
+			Unexercised = append(Unexercised, m)
+		}
+	}
+	if len(gone) > 0 {
+		return fmt.Errorf("alphabet names methods that no longer exist: %v", gone)
 	}
 	return nil
 }
+
+// Unexercised lists exported methods that exist in the tree being checked but
+// are not in the operation table (API additions): they are reported in the
+// worker output and evidence, not silently ignored, but they do not stop the
+// checks of the properties, which are stated over the known API.
+var Unexercised []string
 
 // run executes the operation under recover.
 func (d *OpDesc) run(o *Operands) (out Outcome) {
